@@ -30,6 +30,7 @@ for _pid, _t in {
   "C14": "The exhaustive operator table over the special numerals (0/-0/NaN/inf and all other atom kinds), random core programs, class and closure programs are executed by TLC on Lang.tla once; BOTH builds of the VM (tagged enum and --features nan_boxing) must reproduce the prediction, so any disagreement between the builds is a disagreement of one of them with the spec.",
   "C18": "Call chains of depth <= 4 over functions, methods, initialisers, static methods and lambdas with a raise / runtime error / native error / exit(n) at each level, caught at each level (incl. non-matching handlers on the way, wrapping with inner errors) or not at all, printed in two line layouts: TLC computes on Lang.tla the printed lines, e.message / e.inner / e.backTrace contents, the traceback frames (innermost first) and the exit status; the VM's stdout, stderr traceback and status must match.",
   "C19": "Interactive sessions: the top-level statements of generated modules (core, class, closure and exception families) are entered one per prompt line, with lines that fail to compile and lines that raise inserted; TLC runs the same entries on Lang.tla's session semantics (an entry that raises is reported and the session continues with everything defined so far); the prompt's stdout, the sequence of reported error classes and the normal end of the session must match.",
+  "C17": "Acyclic module graphs of up to 4 files plus main (every import form, multiplicity, order relative to the module's own definitions; exports of let/fn/class; private state observable only through exported functions; requests for private names, missing files and a module that does not compile) are executed by TLC on Lang.tla's module semantics (body runs once, before the importer continues; an import binds exactly the exported values); the VM run over in-memory files must print the same lines and end the same way.",
 }.items():
     CHECKS[_pid] = dict(level="model_checking", design="5/" + _pid, text=_t, note=_lang_note,
         technique="explicit TLA+ executable semantics (Lang.tla, CEK machine) run by TLC on every generated program to predict output and status; predictions replayed on the real VM (mode G)")
